@@ -30,7 +30,8 @@ L1 == <<
     "\t\t- t",
     "```{u+000c}", "~~~ &#x3000;", "[a]: /u \"t&#10;u\"", "> [a]: /u \"x&NewLine;y\"", "- [a]: /u 'p\\\nq'", "```{u+00a0}x",
     "  - > q", "   > - r", "  1. > s", "    > t",
-    "||a|", "|a||"
+    "||a|", "|a||",
+    ">  ```", "#######", "   >  ~~~", "###### ", "#\t#"
 >>
 L1Core == {1, 5, 8, 10, 13, 15, 22, 23, 30, 33, 39, 45, 47, 53, 60, 72, 76, 82, 84, 90, 95}
 L2 == <<
@@ -87,7 +88,7 @@ WrapU == <<
     <<"<", ">">>, <<"a [t](", ") b ![i](", ")">>
 >>
 (* C16: link text / destination / title alphabets for the reference-form = inline-form law *)
-RText == <<"t", "a *b*", "`c`", "![i](/s)", "x\\]y", "&amp;", "{u+00e9}", "a_b_", "<b>">>
+RText == <<"", "t", "a *b*", "`c`", "![i](/s)", "x\\]y", "&amp;", "{u+00e9}", "a_b_", "<b>">>
 RDest == <<"/u", "http://x.y/a?b=c&d", "<a b>", "/p\\(q", "%20x", "&amp;", "a\\*b", "#f", "/(x)", "{u+00e9}", "<>", "/u\\\"", "x&#35;y", "mailto:a@b.c", "./\\[z\\]">>
 RTitle == <<"", "\"T\"", "'T'", "(T)", "\"a\\\"b\"", "'a&quot;b'", "\"p (q)\"", "\"m\nn\"", "'{u+00e9} &amp; \\*'", "(a\\)b)", "\"\"", "\"p\\\nq\"", "'p\\\nq\\\nr'", "\"a&#10;b\"">>
 (* C19: fragments rich in quotes, escaped / entity-written quotes and replacement triggers *)
